@@ -5,6 +5,7 @@ import (
 	"fmt"
 	"sort"
 
+	"verif/internal/mut"
 	"verif/internal/prng"
 )
 
@@ -205,24 +206,7 @@ func genCanonicalDoc(t string, depth int, g *prng.R) map[string]interface{} {
 	return m
 }
 
-// deepCopy clones a JSON value.
-func deepCopy(v interface{}) interface{} {
-	switch x := v.(type) {
-	case map[string]interface{}:
-		m := make(map[string]interface{}, len(x))
-		for k, vv := range x {
-			m[k] = deepCopy(vv)
-		}
-		return m
-	case []interface{}:
-		a := make([]interface{}, len(x))
-		for i := range x {
-			a[i] = deepCopy(x[i])
-		}
-		return a
-	}
-	return v
-}
+func deepCopy(v interface{}) interface{} { return mut.DeepCopy(v) }
 
 // jsonify passes a value through encoding/json so that typed maps, ints and
 // URLs become plain JSON values.
